@@ -8,11 +8,7 @@ there, then a fresh child re-runs the same command with ``resume=True``.
 Oracle: the resumed run terminates normally and its final samples/state are
 bit-identical to the uninterrupted reference.
 """
-import json
-import os
-import re
-import shutil
-import threading
+from vf.fsfault import crashcheck as CC
 
 META = dict(
     id="C24", level="fault_enumeration",
@@ -52,178 +48,27 @@ def configs(tier):
             for cb in (False, True)]
 
 
-def fclass(path):
-    return re.sub(r"\d+", "#", path)
+def keyfn(outcome, e, cfg, events):
+    fc = CC.fclass(e["path"])
+    if outcome.startswith("resume-raises") or outcome.startswith("run-raises"):
+        return f"{outcome}@{fc}"
+    return f"{outcome}@{fc}:{e['kind']}:{e['phase']}"
+
+
+def nontrivial(e, ref):
+    return CC.fclass(e["path"]) in ("last.pkl", "last.pkl.tmp", "minisanity.txt") or e["kind"] == "rename"
 
 
 def parent_pre(pk):
-    from vf.fsfault import driver as D
-    cfgs = configs(pk.tier)
-    refs = [None] * len(cfgs)
-    problems = []
-
-    def ref_job(ci, rep, use_strace):
-        odir = os.path.join(pk.workdir, f"ref{ci}_{rep}", "odir")
-        os.makedirs(os.path.dirname(odir), exist_ok=True)
-        slog = os.path.join(pk.workdir, f"strace{ci}.log") if use_strace else None
-        spec = dict(workload="re", params=dict(cfgs[ci]), odir=odir, mode="record")
-        rc, res, err = D.run_child(spec, f"ref{ci}_{rep}", pk.workdir, timeout=900, strace_log=slog)
-        return rc, res, err, odir, slog
-
-    results = {}
-
-    def worker(ci, rep, use_strace):
-        results[(ci, rep)] = ref_job(ci, rep, use_strace)
-
-    ths = []
-    for ci in range(len(cfgs)):
-        for rep in range(2):
-            t = threading.Thread(target=worker, args=(ci, rep, pk.tier == "thorough" and rep == 1))
-            t.start()
-            ths.append(t)
-    for t in ths:
-        t.join()
-    for ci in range(len(cfgs)):
-        r0, r1 = results[(ci, 0)], results[(ci, 1)]
-        if r0[0] != 0 or r1[0] != 0 or r0[1] is None or r1[1] is None:
-            problems.append(f"reference run failed cfg{ci}: rc={r0[0]},{r1[0]} {r0[2][-300:]} {r1[2][-300:]}")
-            continue
-        ev0 = [(e["kind"], e["path"]) for e in r0[1]["events"]]
-        ev1 = [(e["kind"], e["path"]) for e in r1[1]["events"]]
-        if ev0 != ev1:
-            problems.append(f"event lists of two recording runs differ (cfg{ci})")
-            continue
-        pk.hit("reference_event_lists_equal")
-        same = all(r0[1]["result"][k] == r1[1]["result"][k] for k in CMP_KEYS)
-        if not same:
-            problems.append(f"two uninterrupted runs in fresh processes are not bit-identical (cfg{ci})")
-            continue
-        pk.hit("reference_runs_bit_identical")
-        ok, info = D.audit_consistent(r0[1]["events"], r0[1]["audit"])
-        if not ok:
-            problems.append(f"audit hook saw file-system mutations the failpoint layer missed: {info}")
-            continue
-        pk.hit("audit_crosschecks")
-        if r1[4]:
-            muts = D.strace_mutations(r1[4], r1[3])
-            ok, missing = D.strace_consistent(r1[1]["events"], muts)
-            if not ok:
-                problems.append(f"strace saw mutating syscalls the failpoint layer missed: {missing}")
-                continue
-            pk.hit("strace_crosschecks")
-            pk.hit("strace_mutating_syscalls", len(muts))
-        refs[ci] = dict(cfg=cfgs[ci], events=r0[1]["events"], result=r0[1]["result"])
-    plan = []
-    for ci, ref in enumerate(refs):
-        if ref is None:
-            continue
-        rng = pk.rng(ci)
-        for idx, ph in D.crash_plan(ref["events"], quick=(pk.tier == "quick"), rng=rng, file_class=fclass):
-            e = ref["events"][idx]
-            plan.append(dict(cfg=ci, idx=idx, phase=ph, kind=e["kind"], path=e["path"]))
-        if pk.tier == "thorough":
-            n = len(ref["events"])
-            for _ in range(12):
-                i1 = int(rng.integers(n // 3, n))
-                e = ref["events"][i1]
-                ph = D.PHASES[e["kind"]][int(rng.integers(0, len(D.PHASES[e["kind"]])))]
-                plan.append(dict(cfg=ci, idx=i1, phase=ph, kind=e["kind"], path=e["path"],
-                                 second=dict(idx=int(rng.integers(0, 6)),
-                                             phase=("before", "after", "torn13")[int(rng.integers(0, 3))])))
-    cli = pk.cfg.get("cases_cli")
-    if cli:
-        plan = plan[:cli]
-    pk.cfg["cases"] = len(plan)
-    pk.extra["reference_events"] = [[(e["i"], e["kind"], e["path"], e.get("nbytes")) for e in r["events"]]
-                                    for r in refs if r]
-    pk.extra["crash_points_planned"] = len(plan)
-    pk.extra["reference_problems"] = problems
-    if problems:
-        pk.fatal.extend(problems)
-    with open(os.path.join(pk.workdir, "plan.json"), "w") as f:
-        json.dump(dict(plan=plan, refs=refs), f)
-    for ci in range(len(cfgs)):
-        for rep in range(2):
-            shutil.rmtree(os.path.join(pk.workdir, f"ref{ci}_{rep}"), ignore_errors=True)
+    CC.parent_pre(pk, "re", configs(pk.tier), CMP_KEYS, n_double=12, timeout=900)
 
 
 def init(ck):
-    with open(os.path.join(os.environ["VERIF_WORKDIR"], "plan.json")) as f:
-        d = json.load(f)
-    ck.state["plan"], ck.state["refs"] = d["plan"], d["refs"]
-
-
-def listing(odir):
-    out = {}
-    if os.path.isdir(odir):
-        for root, _, files in os.walk(odir):
-            for fn in files:
-                p = os.path.join(root, fn)
-                out[os.path.relpath(p, odir)] = os.path.getsize(p)
-    return out
+    CC.load_plan(ck)
 
 
 def case(ck, i):
-    from vf.fsfault import driver as D
-    from vf.runner import Skip
-    e = ck.state["plan"][i]
-    ref = ck.state["refs"][e["cfg"]]
-    wd = os.path.join(os.environ["VERIF_WORKDIR"], f"case{i}")
-    odir = os.path.join(wd, "odir")
-    os.makedirs(wd, exist_ok=True)
-    fc = fclass(e["path"])
-    in_window = fc in ("last.pkl", "last.pkl.tmp", "minisanity.txt") or e["kind"] == "rename"
-    ck.note(dict(cfg=ref["cfg"], event=e["idx"], kind=e["kind"], path=e["path"], phase=e["phase"],
-                 second=e.get("second")), nontrivial=in_window, klass=f"{fc}:{e['kind']}:{e['phase']}")
-    try:
-        spec = dict(workload="re", params=dict(ref["cfg"]), odir=odir, mode="crash",
-                    kill_index=e["idx"], phase=e["phase"])
-        rc, res, err = D.run_child(spec, "crash", wd, timeout=900)
-        if rc == "timeout":
-            raise Skip("crash child timed out")
-        if not D.died_by_kill(rc):
-            if rc == 0:
-                raise Skip("crash point not reached (child finished)")
-            ck.violation(f"uninterrupted-part-raises@{fc}", f"child failed before the crash point rc={rc}: "
-                         f"{err[-300:]}", event=e)
-            return
-        ck.hit("crash_children_killed")
-        left = listing(odir)
-        if e.get("second"):
-            s = e["second"]
-            spec2 = dict(workload="re", params=dict(ref["cfg"], resume=True), odir=odir, mode="crash",
-                         kill_index=s["idx"], phase=s["phase"])
-            rc2, _, err2 = D.run_child(spec2, "crash2", wd, timeout=900)
-            if rc2 == "timeout":
-                raise Skip("second crash child timed out")
-            if D.died_by_kill(rc2):
-                ck.hit("second_crashes_killed")
-            elif rc2 != 0:
-                exc = (re.findall(r"^(\w+(?:\.\w+)*(?:Error|Exception))\b", err2, re.M) or ["?"])[-1]
-                ck.violation(f"resume-raises:{exc}@{fc}", f"resumed run (to be crashed again) failed: "
-                             f"{err2[-300:]}", event=e, left=left)
-                return
-        spec3 = dict(workload="re", params=dict(ref["cfg"], resume=True), odir=odir, mode="plain")
-        rc3, res3, err3 = D.run_child(spec3, "resume", wd, timeout=900)
-        if rc3 == "timeout":
-            raise Skip("resume child timed out")
-        ck.hit("resume_runs")
-        if rc3 != 0 or res3 is None:
-            exc = (re.findall(r"^(\w+(?:\.\w+)*(?:Error|Exception))\b", err3, re.M) or ["?"])[-1]
-            ck.violation(f"resume-raises:{exc}@{fc}",
-                         f"after a kill at event {e['idx']} ({e['kind']} {e['path']}, phase {e['phase']}) the "
-                         f"run with resume=True fails: {err3.strip().splitlines()[-1][:200] if err3.strip() else rc3}",
-                         event=e, files_left=left, stderr=err3[-1200:])
-            return
-        ck.hit("digest_comparisons", len(CMP_KEYS))
-        diff = [k for k in CMP_KEYS if res3["result"][k] != ref["result"][k]]
-        if diff:
-            ck.violation(f"resume-differs@{fc}:{e['kind']}:{e['phase']}",
-                         f"resumed run finished but {diff} differ from the uninterrupted run "
-                         f"(kill at event {e['idx']}: {e['kind']} {e['path']}, {e['phase']})",
-                         event=e, files_left=left)
-    finally:
-        shutil.rmtree(wd, ignore_errors=True)
+    CC.run_case(ck, i, "re", CMP_KEYS, keyfn, nontrivial, timeout=900)
 
 
 def parent_post(pk):
